@@ -136,8 +136,9 @@ def _union_states(bdir, tag):
 
 
 def run(tier):
-    d = 4 if tier == 'thorough' else 3
-    a = 3 if tier == 'thorough' else 2
+    d = 5 if tier == 'thorough' else 4
+    a = 3
+    masks = 'every single-bit flip (8 masks)' if tier == 'thorough' else '{^01,^80}'
     rep = core.Report(PROP, tier, 'model_checking',
         'DNS: every name of the grammar (labels c^L, c in {a,Z,0,-}, L in {1,2,62,63}, 1..4 labels = 69904 names, text length 1..255) '
         'through the raw and message-level label encoder/decoder; every section-ordered sequence of <= %d add operations over 18 '
@@ -145,11 +146,11 @@ def run(tier):
         'buffer of every size 12..exactly-fits+1, each add executed on the real builder and followed by the full oracle. '
         'RADIUS: codes {1,2,3,4,5,11} x every attribute sequence of length <= %d over 11 symbols (User-Name 1/253, User-Password '
         '0/1/15/16/17/128, NAS-IP-Address, Vendor-Specific, Message-Authenticator) x secrets of 0/1/16/64 bytes x sign with/without '
-        'appending Message-Authenticator; for each RFC-built packet every byte x {^01,^80} and 3..6 wrong secrets through '
+        'appending Message-Authenticator; for each RFC-built packet every byte x %s and 3..6 wrong secrets through '
         'radius_pkt_chk+radius_pkt_verify. A case is non-trivial when at least one add succeeded (DNS) / the packet was signed (RADIUS) '
         'and every oracle clause was evaluated and held; cases are distinct by construction (distinct sequence, capacity, code, secret). '
         'states = distinct message/packet byte strings produced by the real builders (union over shards of 64-bit hashes), '
-        'transitions = init/add/sign calls executed on the real builders by the owning shard.' % (d, a))
+        'transitions = init/add/sign calls executed on the real builders by the owning shard.' % (d, a, masks))
     rep.assumptions = [
         'reference MD5/HMAC-MD5 is harness/C15/ref_md5.h (written from RFC 1321/2104, T[] from sin()), checked against hashlib/hmac vectors on every run',
         'reference RADIUS constructions (RFC 2865 3, 5.2; RFC 2866 3; RFC 2869 5.14) are cross-checked against a Python recomputation of every reference packet with <= 2 attributes on every run',
